@@ -180,3 +180,296 @@ def _total_loads(rng, nx, ny, sym):
         inp["loads_from_thrusts"] = rng.normal(size=(ny, 6)) * 1e3
     return dict(factory=lambda: TotalLoads(surface=s), ints=[ny, int(relief), int(fuel), int(pm)], consts=[],
                 inputs=inp, outputs=["total_loads"])
+
+
+# ---------------------------------------------------------------------------------------
+# aerodynamic post-processing
+# ---------------------------------------------------------------------------------------
+@spec("VLMGeometry")
+def _vlm_geometry(rng, nx, ny, sym):
+    from openaerostruct.aerodynamics.geometry import VLMGeometry
+    s = _surf(rng, nx, ny, sym)
+    proj = s["S_ref_type"] == "projected"
+    return dict(factory=lambda: VLMGeometry(surface=s), ints=[nx, ny, int(sym), int(proj)], consts=[],
+                inputs=OrderedDict(def_mesh=s["mesh"]),
+                outputs=["b_pts", "widths", "lengths_spanwise", "lengths", "normals", "S_ref", "chords"])
+
+
+@spec("LiftDrag")
+def _lift_drag(rng, nx, ny, sym):
+    from openaerostruct.aerodynamics.lift_drag import LiftDrag
+    s = _surf(rng, nx, ny, sym)
+    return dict(factory=lambda: LiftDrag(surface=s), ints=[nx, ny, int(sym)], consts=[],
+                inputs=OrderedDict(alpha=np.array([rng.uniform(-15, 15)]), beta=np.array([rng.uniform(-15, 15)]),
+                                   sec_forces=rng.normal(size=(nx - 1, ny - 1, 3)) * 1e3),
+                outputs=["L", "D"])
+
+
+@spec("Coeffs", sym_opts=(False,))
+def _coeffs(rng, nx, ny, sym):
+    from openaerostruct.aerodynamics.coeffs import Coeffs
+    return dict(factory=lambda: Coeffs(), ints=[], consts=[],
+                inputs=OrderedDict(S_ref=np.array([rng.uniform(5, 400)]), L=np.array([rng.normal() * 1e5]),
+                                   D=np.array([rng.uniform(1e2, 1e4)]), v=np.array([rng.uniform(20, 260)]),
+                                   rho=np.array([rng.uniform(0.2, 1.3)])),
+                outputs=["CL1", "CDi"])
+
+
+@spec("TotalLift", sym_opts=(False,))
+def _total_lift(rng, nx, ny, sym):
+    from openaerostruct.aerodynamics.total_lift import TotalLift
+    s = _surf(rng, nx, ny, sym); s["CL0"] = float(rng.uniform(-0.1, 0.3))
+    return dict(factory=lambda: TotalLift(surface=s), ints=[], consts=[s["CL0"]],
+                inputs=OrderedDict(CL1=np.array([rng.uniform(-0.5, 1.2)])), outputs=["CL"])
+
+
+@spec("TotalDrag", sym_opts=(False,))
+def _total_drag(rng, nx, ny, sym):
+    from openaerostruct.aerodynamics.total_drag import TotalDrag
+    s = _surf(rng, nx, ny, sym); s["CD0"] = float(rng.uniform(0, 0.03))
+    return dict(factory=lambda: TotalDrag(surface=s), ints=[], consts=[s["CD0"]],
+                inputs=OrderedDict(CDi=np.array([rng.uniform(0, 0.05)]), CDv=np.array([rng.uniform(0, 0.02)]),
+                                   CDw=np.array([rng.uniform(0, 0.01)])), outputs=["CD"])
+
+
+@spec("LiftCoeff2D")
+def _lift_coeff_2d(rng, nx, ny, sym):
+    from openaerostruct.aerodynamics.lift_coeff_2D import LiftCoeff2D
+    s = _surf(rng, nx, ny, sym)
+    return dict(factory=lambda: LiftCoeff2D(surface=s), ints=[nx, ny], consts=[],
+                inputs=OrderedDict(alpha=np.array([rng.uniform(-15, 15)]), sec_forces=rng.normal(size=(nx - 1, ny - 1, 3)) * 1e3,
+                                   widths=rng.uniform(0.3, 2.0, size=ny - 1), chords=rng.uniform(0.5, 3.0, size=ny),
+                                   v=np.array([rng.uniform(20, 260)]), rho=np.array([rng.uniform(0.2, 1.3)])),
+                outputs=["Cl"])
+
+
+def _strip_geom(rng, ny):
+    widths = rng.uniform(0.3, 2.0, size=ny - 1)
+    lsp = widths / np.cos(np.radians(rng.uniform(0, 50, size=ny - 1)))
+    return widths, lsp
+
+
+@spec("WaveDrag")
+def _wave_drag(rng, nx, ny, sym):
+    from openaerostruct.aerodynamics.wave_drag import WaveDrag
+    s = _surf(rng, nx, ny, sym)
+    s["with_wave"] = bool(rng.uniform() < 0.85)
+    widths, lsp = _strip_geom(rng, ny)
+    chords = rng.uniform(0.5, 3.0, size=ny)
+    toc = rng.uniform(0.05, 0.2, size=ny - 1)
+    CL = rng.uniform(0.0, 0.8)
+    # crest-critical Mach number of this case, to place M on either side of it with a guard band
+    area = 0.5 * (chords[:-1] + chords[1:]) * widths
+    ac = np.sum(widths / lsp * area) / area.sum(); at = np.sum(toc * area) / area.sum()
+    mcrit = 0.95 / ac - at / ac ** 2 - CL / (10 * ac ** 3) - (0.1 / 80.0) ** (1.0 / 3.0)
+    if rng.uniform() < 0.6:
+        M = mcrit + rng.uniform(0.01, 0.15)
+    else:
+        M = mcrit - rng.uniform(0.01, 0.3)
+    return dict(factory=lambda: WaveDrag(surface=s), ints=[ny, int(s["with_wave"]), int(sym)], consts=[0.95],
+                inputs=OrderedDict(Mach_number=np.array([M]), CL=np.array([CL]), lengths_spanwise=lsp, widths=widths,
+                                   chords=chords, t_over_c=toc),
+                outputs=["CDw"], vatol=1e-300, branch="above" if M > mcrit else "below")
+
+
+@spec("ViscousDrag")
+def _viscous_drag(rng, nx, ny, sym):
+    from openaerostruct.aerodynamics.viscous_drag import ViscousDrag
+    s = _surf(rng, nx, ny, sym)
+    s["with_viscous"] = bool(rng.uniform() < 0.9)
+    s["k_lam"] = float(rng.choice([0.0, 0.05, 0.3, 0.7, 1.0]))
+    s["c_max_t"] = float(rng.uniform(0.25, 0.45))
+    widths, lsp = _strip_geom(rng, ny)
+    lengths = rng.uniform(0.5, 3.0, size=ny)
+    return dict(factory=lambda: ViscousDrag(surface=s), ints=[ny, int(s["with_viscous"]), int(sym)],
+                consts=[s["k_lam"], s["c_max_t"]],
+                inputs=OrderedDict(re=np.array([10 ** rng.uniform(5.5, 7.5)]), Mach_number=np.array([rng.uniform(0.1, 0.9)]),
+                                   S_ref=np.array([rng.uniform(5, 400)]), widths=widths, lengths_spanwise=lsp,
+                                   lengths=lengths, t_over_c=rng.uniform(0.05, 0.3, size=ny - 1)),
+                outputs=["CDv"], branch="k_lam=%g" % s["k_lam"])
+
+
+# ---------------------------------------------------------------------------------------
+# functionals
+# ---------------------------------------------------------------------------------------
+def _surfaces(rng, nx, ny, sym, ns=None):
+    ns = ns or int(rng.integers(1, 4))
+    out = []
+    for k in range(ns):
+        s = _surf(rng, nx + (k % 2), ny + (k // 2), sym if k == 0 else bool(rng.integers(2)), name="surf%d" % k)
+        out.append(s)
+    return out
+
+
+@spec("TotalLiftDrag", sym_opts=(False,))
+def _total_lift_drag(rng, nx, ny, sym):
+    from openaerostruct.functionals.total_lift_drag import TotalLiftDrag
+    ss = _surfaces(rng, nx, ny, sym)
+    inp = OrderedDict()
+    for s in ss:
+        inp[s["name"] + "_CL"] = np.array([rng.uniform(-0.3, 1.0)])
+        inp[s["name"] + "_CD"] = np.array([rng.uniform(0.005, 0.06)])
+        inp[s["name"] + "_S_ref"] = np.array([rng.uniform(5, 300)])
+    inp["v"] = np.array([rng.uniform(20, 260)]); inp["rho"] = np.array([rng.uniform(0.2, 1.3)])
+    inp["S_ref_total"] = np.array([rng.uniform(50, 500)])
+    return dict(factory=lambda: TotalLiftDrag(surfaces=ss), ints=[len(ss)], consts=[], inputs=inp, outputs=["L", "D", "CL", "CD"])
+
+
+@spec("SumAreas", sym_opts=(False,))
+def _sum_areas(rng, nx, ny, sym):
+    from openaerostruct.functionals.sum_areas import SumAreas
+    ss = _surfaces(rng, nx, ny, sym)
+    inp = OrderedDict((s["name"] + "_S_ref", np.array([rng.uniform(5, 300)])) for s in ss)
+    return dict(factory=lambda: SumAreas(surfaces=ss), ints=[len(ss)], consts=[], inputs=inp, outputs=["S_ref_total"])
+
+
+@spec("Equilibrium", sym_opts=(False,))
+def _equilibrium(rng, nx, ny, sym):
+    from openaerostruct.functionals.equilibrium import Equilibrium
+    ss = _surfaces(rng, nx, ny, sym)
+    inp = OrderedDict((s["name"] + "_structural_mass", np.array([rng.uniform(100, 2e4)])) for s in ss)
+    inp.update(fuelburn=np.array([rng.uniform(1e3, 1e5)]), W0=np.array([rng.uniform(1e3, 2e5)]),
+               load_factor=np.array([rng.uniform(0.5, 2.5)]), CL=np.array([rng.uniform(0.1, 1.0)]),
+               S_ref_total=np.array([rng.uniform(20, 500)]), v=np.array([rng.uniform(50, 260)]), rho=np.array([rng.uniform(0.2, 1.3)]))
+    return dict(factory=lambda: Equilibrium(surfaces=ss), ints=[len(ss)], consts=[], inputs=inp,
+                outputs=["L_equals_W", "total_weight"])
+
+
+@spec("Breguet", sym_opts=(False,))
+def _breguet(rng, nx, ny, sym):
+    from openaerostruct.functionals.breguet_range import BreguetRange
+    ss = _surfaces(rng, nx, ny, sym)
+    inp = OrderedDict((s["name"] + "_structural_mass", np.array([rng.uniform(100, 2e4)])) for s in ss)
+    inp.update(CT=np.array([rng.uniform(1e-5, 3e-4)]), CL=np.array([rng.uniform(0.2, 0.9)]), CD=np.array([rng.uniform(0.01, 0.06)]),
+               speed_of_sound=np.array([rng.uniform(290, 345)]), R=np.array([rng.uniform(1e5, 1.5e7)]),
+               Mach_number=np.array([rng.uniform(0.2, 0.9)]), W0=np.array([rng.uniform(1e3, 2e5)]))
+    return dict(factory=lambda: BreguetRange(surfaces=ss), ints=[len(ss)], consts=[], inputs=inp, outputs=["fuelburn"])
+
+
+@spec("CenterOfGravity", sym_opts=(False,))
+def _center_of_gravity(rng, nx, ny, sym):
+    from openaerostruct.functionals.center_of_gravity import CenterOfGravity
+    ss = _surfaces(rng, nx, ny, sym)
+    inp = OrderedDict()
+    tot = 0.0
+    for s in ss:
+        m = rng.uniform(100, 2e4); tot += m
+        inp[s["name"] + "_structural_mass"] = np.array([m])
+        inp[s["name"] + "_cg_location"] = rng.normal(size=3) * 3
+    W0 = rng.uniform(1e3, 2e5); fb = rng.uniform(1e3, 1e5); lf = rng.uniform(0.5, 2.5)
+    inp.update(total_weight=np.array([(tot + W0 + fb) * 9.80665 * lf]), fuelburn=np.array([fb]), W0=np.array([W0]),
+               load_factor=np.array([lf]), empty_cg=rng.normal(size=3) * 3)
+    return dict(factory=lambda: CenterOfGravity(surfaces=ss), ints=[len(ss)], consts=[], inputs=inp, outputs=["cg"])
+
+
+@spec("Reynolds", sym_opts=(False,))
+def _reynolds(rng, nx, ny, sym):
+    from openaerostruct.common.reynolds_comp import ReynoldsComp
+    return dict(factory=lambda: ReynoldsComp(), ints=[], consts=[],
+                inputs=OrderedDict(rho=np.array([rng.uniform(0.2, 1.3)]), mu=np.array([rng.uniform(1e-5, 2e-5)]),
+                                   v=np.array([rng.uniform(20, 260)])), outputs=["re"])
+
+
+@spec("MomentCoefficient")
+def _moment_coefficient(rng, nx, ny, sym):
+    from openaerostruct.functionals.moment_coefficient import MomentCoefficient
+    ss = _surfaces(rng, nx, ny, sym)
+    inp = OrderedDict(); ints = [len(ss)]
+    for s in ss:
+        snx, sny = s["mesh"].shape[:2]
+        ints += [snx, sny, int(s["symmetry"])]
+        m = s["mesh"]
+        inp[s["name"] + "_b_pts"] = 0.75 * m[:-1] + 0.25 * m[1:]
+        inp[s["name"] + "_widths"] = rng.uniform(0.3, 2.0, size=sny - 1)
+        inp[s["name"] + "_chords"] = rng.uniform(0.5, 3.0, size=sny)
+        inp[s["name"] + "_S_ref"] = np.array([rng.uniform(5, 300)])
+        inp[s["name"] + "_sec_forces"] = rng.normal(size=(snx - 1, sny - 1, 3)) * 1e3
+    inp.update(cg=rng.normal(size=3) * 2, v=np.array([rng.uniform(20, 260)]), rho=np.array([rng.uniform(0.2, 1.3)]),
+               S_ref_total=np.array([rng.uniform(50, 500)]))
+    return dict(factory=lambda: MomentCoefficient(surfaces=ss), ints=ints, consts=[], inputs=inp, outputs=["CM", "M"])
+
+
+# ---------------------------------------------------------------------------------------
+# stresses / failure
+# ---------------------------------------------------------------------------------------
+def _disp(rng, ny, scale=0.05):
+    d = rng.normal(size=(ny, 6)) * scale
+    d[:, 3:] *= 0.2
+    return d
+
+
+@spec("VonMisesTube")
+def _vonmises_tube(rng, nx, ny, sym):
+    from openaerostruct.structures.vonmises_tube import VonMisesTube
+    s = _surf(rng, nx, ny, sym)
+    return dict(factory=lambda: VonMisesTube(surface=s), ints=[ny], consts=[s["E"], s["G"]],
+                inputs=OrderedDict(nodes=_nodes(rng, s), radius=rng.uniform(0.05, 0.4, size=ny - 1), disp=_disp(rng, ny)),
+                outputs=["vonmises"])
+
+
+@spec("VonMisesWingbox")
+def _vonmises_wingbox(rng, nx, ny, sym):
+    from openaerostruct.structures.vonmises_wingbox import VonMisesWingbox
+    s = _surf(rng, nx, ny, sym, fem="wingbox")
+    s["strength_factor_for_upper_skin"] = float(rng.uniform(0.8, 1.2))
+    ne = ny - 1
+    inp = OrderedDict(nodes=_nodes(rng, s), disp=_disp(rng, ny), Qz=rng.uniform(1e-3, 1e-2, size=ne), J=rng.uniform(1e-3, 1e-2, size=ne),
+                      A_enc=rng.uniform(0.1, 0.6, size=ne), spar_thickness=rng.uniform(2e-3, 2e-2, size=ne),
+                      htop=rng.uniform(0.05, 0.3, size=ne), hbottom=rng.uniform(0.05, 0.3, size=ne),
+                      hfront=rng.uniform(0.2, 0.8, size=ne), hrear=rng.uniform(0.2, 0.8, size=ne))
+    return dict(factory=lambda: VonMisesWingbox(surface=s), ints=[ny], consts=[s["E"], s["G"], s["strength_factor_for_upper_skin"]],
+                inputs=inp, outputs=["vonmises"], jtol=1e-6)
+
+
+def _stresses(rng, ny, nc):
+    mag = 10 ** rng.uniform(3, 12)
+    vm = rng.uniform(0, 1, size=(ny - 1, nc)) * mag
+    return vm
+
+
+@spec("FailureKS")
+def _failure_ks(rng, nx, ny, sym):
+    from openaerostruct.structures.failure_ks import FailureKS
+    fem = "tube" if rng.integers(2) else "wingbox"
+    s = _surf(rng, nx, ny, sym, fem=fem)
+    nc = 2 if fem == "tube" else 4
+    rho = float(rng.choice([10.0, 50.0, 100.0, 500.0]))
+    vm = _stresses(rng, ny, nc)
+    return dict(factory=lambda: FailureKS(surface=s, rho=rho), ints=[vm.size], consts=[s["yield"], rho],
+                inputs=OrderedDict(vonmises=vm), outputs=["failure"])
+
+
+@spec("FailureExact")
+def _failure_exact(rng, nx, ny, sym):
+    from openaerostruct.structures.failure_exact import FailureExact
+    fem = "tube" if rng.integers(2) else "wingbox"
+    s = _surf(rng, nx, ny, sym, fem=fem)
+    vm = _stresses(rng, ny, 2 if fem == "tube" else 4)
+    return dict(factory=lambda: FailureExact(surface=s), ints=[vm.size], consts=[s["yield"]],
+                inputs=OrderedDict(vonmises=vm), outputs=["failure"])
+
+
+@spec("SectionPropertiesTube")
+def _section_properties_tube(rng, nx, ny, sym):
+    from openaerostruct.structures.section_properties_tube import SectionPropertiesTube
+    s = _surf(rng, nx, ny, sym)
+    r = rng.uniform(0.05, 0.5, size=ny - 1)
+    return dict(factory=lambda: SectionPropertiesTube(surface=s), ints=[ny - 1], consts=[],
+                inputs=OrderedDict(radius=r, thickness=r * rng.uniform(0.02, 0.6, size=ny - 1)), outputs=["A", "Iy", "Iz", "J"])
+
+
+@spec("NonIntersectingThickness")
+def _non_intersecting(rng, nx, ny, sym):
+    from openaerostruct.structures.non_intersecting_thickness import NonIntersectingThickness
+    s = _surf(rng, nx, ny, sym)
+    return dict(factory=lambda: NonIntersectingThickness(surface=s), ints=[ny - 1], consts=[],
+                inputs=OrderedDict(thickness=rng.uniform(0.001, 0.1, size=ny - 1), radius=rng.uniform(0.05, 0.5, size=ny - 1)),
+                outputs=["thickness_intersects"])
+
+
+@spec("Energy")
+def _energy(rng, nx, ny, sym):
+    from openaerostruct.structures.energy import Energy
+    s = _surf(rng, nx, ny, sym)
+    return dict(factory=lambda: Energy(surface=s), ints=[ny], consts=[],
+                inputs=OrderedDict(disp=_disp(rng, ny), loads=rng.normal(size=(ny, 6)) * 1e3), outputs=["energy"])
